@@ -1,7 +1,7 @@
 """manifest_text.py - wording of the MANIFEST entries (what each check claims and trusts)."""
 HOOK_COMMITS = ["50cd013"]
 PENDING = "check under construction in this session (harness not yet registered); see DESIGN.md section 4 for the planned oracle"
-NOT_APPLICABLE = {p: PENDING for p in ["C17", "C18"]}
+NOT_APPLICABLE = {p: PENDING for p in ["C18"]}
 TEXT = {
  "C01": dict(
     technique="property-based testing (rapidcheck): LPs with planted primal-dual certificates x parameter combinations, exact GMP certificate oracle",
@@ -82,4 +82,8 @@ TEXT.update({
     technique="property-based round-trip testing (rapidcheck): basis files and state files, independent BAS parser, fresh-object differential",
     level_text="LPs x bases (from solves of every status, iteration-limited solves, generated valid status assignments) x {user names, default names, crossed names} x CPLEX flag: writeBasisFile -> independent parser of the documented BAS format -> fresh object -> readBasisFile -> statuses equal; writeStateReal/Rational -> fresh object loads settings, LP and basis -> LP equal to the exact model by name under the documented MPS/LP normalisations, statuses equal, every parameter equal, both objects re-solved to the same status and optimum. Also under ASan/UBSan. Exploration.",
     level_note="trusted: own BAS parser and the normalisations cited in harness/c14.cpp; the writer branch for an LP held outside the solver is unreachable through the public API in this tree (counter writer_path.unloaded stays 0) and is therefore not exercised"),
+ "C17": dict(
+    technique="property-based testing (rapidcheck): twin-object and re-solve bitwise differential; copy/assign at generated history points with divergent continuations, destruction and memory poisoning; also under ASan/UBSan/LSan",
+    level_text="Determinism: two objects built by placement-new over differently pre-filled memory, with heap traffic in between, are given the same LP, parameters and seed and must agree bitwise in status, iteration count, basis and all solution vectors (float and exact); the same object re-solved after clearBasis() must reproduce itself. Copies: an object A and a never-copied twin T run the same history; B is made by copy constructor / assignment to fresh / assignment to a used object / self-assignment at a generated point and must equal A in every getter; then one side is mutated, solved and (45%) destroyed with its memory poisoned and recycled, and the other side must stay bit-identical and continue like T. The asan stage ends every case with a leak check. Exploration.",
+    level_note="trusted: bitwise comparison of public getters; 'continues like a never-copied twin' is a strict reading of 'equal and independent' (stated as assumption); four known findings (fresh-object basis state, generator not re-seeded per solve, quick-steep norms, factorisation dropped by the copy) are excluded by construction; copying while the real LP is outside the solver is unreachable in this tree"),
 })
